@@ -149,6 +149,25 @@ class Program:
             cur = {q for q, f in self.funcs.items() if f.parent == pq and q.startswith(pre) and '#' not in q}
             ref = {q for q in base if q.startswith(pre) and '.<' not in q[len(pre):] and '#' not in q}
             gone, new = sorted(ref - cur), sorted(cur - ref)
+            if len(gone) == 1 and not new:
+                # moved out: the parent now calls a new module-level function (called from nowhere else) where it used to call the nested one
+                mod_tree = self.mods[F.mod][1]
+                cands = []
+                for q2, f2 in self.funcs.items():
+                    if q2 in base or f2.mod != F.mod or f2.parent is not None or f2.cls is not None or isinstance(f2.node, ast.Lambda) or '#' in q2:
+                        continue
+                    nm = f2.node.name
+                    from .cfg import walk_function
+                    inside = any(isinstance(x, ast.Name) and x.id == nm for x in walk_function(F.node))      # in the parent's own statements
+                    outside = any(isinstance(x, ast.Name) and x.id == nm for top in mod_tree.body if top is not F.node and not self._contains(top, F.node)
+                                  for x in ast.walk(top) if x is not f2.node)
+                    if inside and not outside:
+                        cands.append((q2, f2))
+                if len(cands) == 1:
+                    q2, f2 = cands[0]
+                    self.funcs[gone[0]] = Func(gone[0], f2.mod, None, f2.node, None, f2.path)
+                    out[q2] = gone[0]
+                continue
             if len(gone) != 1 or len(new) != 1:
                 continue
             old_name, new_name = gone[0][len(pre):-1], new[0][len(pre):-1]
@@ -170,6 +189,10 @@ class Program:
                 self.funcs[f.qual] = f
             out[new[0]] = gone[0]
         return out
+
+    @staticmethod
+    def _contains(top, node):
+        return any(x is node for x in ast.walk(top))
 
     # ------------------------------------------------------------------ registry
     def _collect(self, m, cls, body, prefix, parent, path):
